@@ -37,6 +37,7 @@ func checkC14(c *Ctx) {
 	c14Delayed(c)
 	c14Popped(c)
 	c14Push(c)
+	c14QueueTables(c)
 
 	// C14.6 AddEvent order
 	if ae := p.Method("core/eventloop", "EventLoop", "AddEvent"); ae != nil {
@@ -449,5 +450,201 @@ func c14Push(c *Ctx) {
 	}
 	c.Check(len(bad) == 0 && n > 0, "C14.5", "queue.push: reported dropped event is the overwritten one", p.FuncPos(push),
 		"the "+itoa(n)+" non-nil value(s) returned as dropped are loaded from the slot index that provably equals the index the new entry is written to",
+		join(bad))
+}
+
+// c14QueueTables: the ring buffer's pop and len equal their specification as decision tables
+// (loop-free functions; atoms: empty, head == tail, head reached the end, tail < head), and push
+// writes the new entry at tail+1 (wrapped), makes it the tail, advances the head by one (wrapped) exactly
+// on overflow and sets it on the first push.
+func c14QueueTables(c *Ctx) {
+	p := c.P
+	ab := func(s string) string {
+		s = strings.ReplaceAll(canon(s), "p0->hs/core/eventloop.queue.", "")
+		return strings.ReplaceAll(s, "builtin len(entries)", "cap")
+	}
+	// ---- pop ----
+	if pop := p.Method("core/eventloop", "queue", "pop"); pop != nil {
+		fl := NewFlow(p, pop)
+		abbrevFn = ab
+		paths, err := enumPaths(fl, 100)
+		abbrevFn = func(x string) string { return x }
+		if err != nil {
+			c.Undecided("C14.7", "queue.pop", p.FuncPos(pop), err.Error())
+		} else {
+			atoms := []string{"c:-1 == head", "head == tail", "cap == head"}
+			n, diff := compareTable(paths, atoms, func(v func(string) bool) outcome {
+				o := outcome{"nil", map[string]string{}}
+				if v("c:-1 == head") {
+					return o
+				}
+				o.Result = "entries[head]"
+				if v("head == tail") {
+					o.Stores[kQueue+"head"] = "c:-1"
+					o.Stores[kQueue+"tail"] = "c:-1"
+				} else if v("cap == head") {
+					o.Stores[kQueue+"head"] = "c:0"
+				} else {
+					o.Stores[kQueue+"head"] = "(head + c:1)"
+				}
+				return o
+			})
+			// second result: ok flag
+			okFlag := true
+			for _, d := range paths {
+				if len(d.Results) == 2 {
+					want := d.Result != "nil"
+					if !isBoolConst(d.Results[1], want) {
+						okFlag = false
+					}
+				}
+			}
+			// the entry is read before the head moves
+			readFirst := true
+			var load ssa.Instruction
+			eachInstr(pop, func(in ssa.Instruction) {
+				if u, ok := in.(*ssa.UnOp); ok {
+					if ia, ok := u.X.(*ssa.IndexAddr); ok && strings.HasSuffix(fl.K.Key(ia.X), kQueue+"entries") {
+						load = in
+					}
+				}
+			})
+			eachInstr(pop, func(in ssa.Instruction) {
+				if st, ok := in.(*ssa.Store); ok {
+					if fa, ok := st.Addr.(*ssa.FieldAddr); ok && fieldName(fa.X.Type(), fa.Field) == kQueue+"head" {
+						if load == nil || !precedes(load, in) {
+							readFirst = false
+						}
+					}
+				}
+			})
+			c.Check(diff == "" && okFlag && readFirst, "C14.7", "queue.pop: transition table of a ring buffer", p.FuncPos(pop),
+				itoa(len(paths))+" paths, "+itoa(n)+" valuations: empty -> (nil,false); otherwise (entries[head],true), read before the head moves; last element -> head=tail=-1; else head advances by one, wrapping to 0 at the end",
+				"pop differs from the ring-buffer specification: "+diff+" ok-flag consistent: "+boolStr(okFlag)+", entry read before head update: "+boolStr(readFirst))
+		}
+	} else {
+		c.Unresolved("C14.7", "queue.pop", "anchor missing")
+	}
+	// ---- len ----
+	if ln := p.Method("core/eventloop", "queue", "len"); ln != nil {
+		fl := NewFlow(p, ln)
+		abbrevFn = ab
+		paths, err := enumPaths(fl, 100)
+		abbrevFn = func(x string) string { return x }
+		if err != nil {
+			c.Undecided("C14.7", "queue.len", p.FuncPos(ln), err.Error())
+		} else {
+			sym := func(v ssa.Value) string { return ab(canon(fl.K.Key(v))) }
+			ok := len(paths) > 0
+			var detail []string
+			for _, d := range paths {
+				val := map[string]bool{}
+				for _, l := range d.Lits {
+					val[l.Atom] = l.Val
+				}
+				var want poly
+				switch {
+				case val["c:-1 == head"]:
+					want = polyConst(0)
+				case !val["tail < head"]:
+					want = polySym("tail").add(polySym("head"), -1).add(polyConst(1), 1)
+				default:
+					want = polySym("cap").add(polySym("head"), -1).add(polySym("tail"), 1).add(polyConst(1), 1)
+				}
+				if _, has := val["c:-1 == head"]; !has {
+					ok = false
+					detail = append(detail, "a path does not test for the empty queue")
+					continue
+				}
+				got := polyOf(d.Results[0], sym)
+				if !got.eq(want) {
+					ok = false
+					detail = append(detail, "returns "+got.String()+", want "+want.String())
+				}
+			}
+			c.Check(ok, "C14.7", "queue.len: number of pending entries", p.FuncPos(ln),
+				"0 when empty; tail-head+1 when head <= tail; cap-head+tail+1 when wrapped", join(detail))
+		}
+	} else {
+		c.Unresolved("C14.7", "queue.len", "anchor missing")
+	}
+	// ---- push ----
+	push := p.Method("core/eventloop", "queue", "push")
+	if push == nil {
+		c.Unresolved("C14.7", "queue.push", "anchor missing")
+		return
+	}
+	fl := NewFlow(p, push)
+	var pos *ssa.Phi
+	var bad []string
+	nStoreEntry, nStoreTail := 0, 0
+	eachInstr(push, func(in ssa.Instruction) {
+		st, ok := in.(*ssa.Store)
+		if !ok {
+			return
+		}
+		if ia, ok := st.Addr.(*ssa.IndexAddr); ok && strings.HasSuffix(fl.K.Key(ia.X), kQueue+"entries") && fl.K.Key(st.Val) == "p1" {
+			nStoreEntry++
+			pos, _ = ia.Index.(*ssa.Phi)
+		}
+	})
+	if pos == nil || nStoreEntry != 1 {
+		c.Undecided("C14.7", "queue.push", p.FuncPos(push), "the slot written with the new entry is not a single phi-indexed store")
+		return
+	}
+	pk := fl.K.Key(pos)
+	// pos = tail+1, or 0 exactly when tail+1 == cap
+	for i, e := range pos.Edges {
+		pred := pos.Block().Preds[i]
+		ek := ab(fl.K.Key(e))
+		ef := fl.AtEdge(pred, pos.Block())
+		wrapFact := hasCmp(ef, "==", func(k string) bool { return ab(k) == "(tail + c:1)" }, func(k string) bool { return strings.HasPrefix(ab(k), "cap") })
+		noWrapFact := hasCmp(ef, "!=", func(k string) bool { return ab(k) == "(tail + c:1)" }, func(k string) bool { return strings.HasPrefix(ab(k), "cap") })
+		switch {
+		case ek == "c:0" && wrapFact:
+		case ek == "(tail + c:1)" && noWrapFact:
+		default:
+			bad = append(bad, "slot index may be "+ek+" (wrap test: ==:"+boolStr(wrapFact)+" !=:"+boolStr(noWrapFact)+")")
+		}
+	}
+	eachInstr(push, func(in ssa.Instruction) {
+		st, ok := in.(*ssa.Store)
+		if !ok {
+			return
+		}
+		fa, ok := st.Addr.(*ssa.FieldAddr)
+		if !ok {
+			return
+		}
+		val := ab(fl.K.Key(st.Val))
+		facts := fl.At(in)
+		switch fieldName(fa.X.Type(), fa.Field) {
+		case kQueue + "tail":
+			nStoreTail++
+			if fl.K.Key(st.Val) != pk {
+				bad = append(bad, "tail := "+val+", want the slot index")
+			}
+		case kQueue + "head":
+			switch {
+			case fl.K.Key(st.Val) == pk:
+				// first push: only when the queue was empty
+				if !hasCmp(facts, "==", func(k string) bool { return ab(k) == "head" }, is("c:-1")) {
+					bad = append(bad, "head := slot index not gated by head == -1")
+				}
+			case val == "(head + c:1)":
+				if !hasCmp(facts, "==", is(pk), func(k string) bool { return ab(k) == "head" }) {
+					bad = append(bad, "head advanced although the new slot is not the head (no overflow)")
+				}
+			case val == "c:0":
+				if !hasCmp(facts, "==", func(k string) bool { return ab(k) == "head" }, func(k string) bool { return strings.HasPrefix(ab(k), "cap") }) {
+					bad = append(bad, "head wrapped to 0 without head == cap")
+				}
+			default:
+				bad = append(bad, "unexpected head := "+val)
+			}
+		}
+	})
+	c.Check(len(bad) == 0 && nStoreTail == 1, "C14.7", "queue.push: slot, tail and head updates of a ring buffer", p.FuncPos(push),
+		"the entry goes to tail+1 (0 when that is the end), which becomes the tail; the head advances by one (wrapping) only when the slot is the head (overflow) and is set on the first push",
 		join(bad))
 }
